@@ -708,7 +708,7 @@ def specs_all(ctx):
     for mode in ('cartesian', 'axisymmetric'):      # meshes that carry block_maps (as every Exodus mesh does)
         out.append(dict(kind='afs', Nx=2, Ny=2, qdeg=2, order=1, mode=mode, block_maps=True, seed=r.randrange(1 << 30)))
     out.extend(precond_specs(r, ctx.n(5, 42)))
-    out.extend(loadhist_specs(r, ctx.n(2, 8)))
+    out.extend(loadhist_specs(r, ctx.n(2, 6)))
     return out
 
 
